@@ -106,3 +106,7 @@ mod test {
         assert_eq!(cmr[0], 0x70);
     }
 }
+
+#[cfg(feature = "verif-hooks")]
+#[path = "/verif/kani/hooks_row.rs"]
+mod verif_hooks;
